@@ -74,6 +74,10 @@ def case(draw, tier="quick"):
 def check_one(spec, r, rtype, stats):
     m = M.model_from_spec(spec)
     a = M.build(spec)
+    if (len(spec["pos"]) + sum(r)) % 2 == 0:
+        # the original has been looked at before (its per-atom element list read, as any search / writer does)
+        list(a.elements)
+        stats.count("elements-read-before-replicate")
     snap = mf.snapshot(a)
     rep = tuple(r) if rtype == "tuple" else list(r) if rtype == "list" else np.array(r)
     try:
